@@ -99,6 +99,9 @@ var records = []string{
 	"@ 300 IN RRSIG A 8 2 300 20300101000000 20200101000000 12345 @ AAECAwQFBgcICQoLDA0ODw==",
 	"@ 300 IN DNSKEY 256 3 8 AwEAAcNEU67LJI5GEgF9QLNqLO1SMq1EdoQ6E9f85ha0k0ewQGCblyW2836GiVsm6k8Kr5ECIoMJ6fZWf3CQSQ9ycWfTyOHfmI3eQ/1Covhb2y4bAmL/07PhrL7ozWBW3wBfM335Ft9xjtXHPy7ztCbV9qZ4TVDTW/Iyg0PiwgoXVesz",
 	"@ 300 IN APL 1:192.168.32.0/21 !1:192.168.38.0/28", "@ 300 IN IPSECKEY 10 1 2 192.0.2.38 AQNRU3mG7TVTO2BkR47usntb102uFJtugbo6BSGvgqt4AQ==",
+	// a private-use type the application has registered (PrivateHandle, once, when the harness starts): its RDATA goes
+	// through the library's token loop for private types and then through the application's own parser
+	"@ 300 IN XPRIV7 one two \"three four\"", "priv 300 IN XPRIV7 \"\" x", "priv XPRIV7 a ( b", "  c ) ; done",
 	// every order of owner / class / TTL the grammar allows
 	"cf IN 300 A 192.0.2.7", "cf2 CH 60 TXT \"class first\"", "cf3 IN A 192.0.2.8", "cf4 A 192.0.2.9", "cf5 600 A 192.0.2.10", " IN 300 AAAA 2001:db8::7", " A 192.0.2.11",
 }
@@ -184,7 +187,8 @@ func genLines(r interface{ IntN(int) int }, n int, includes []string, damage boo
 				l = "$GENERATE " + edge[r.IntN(len(edge))]
 			}
 			l += [...]string{" host$ A 10.0.0.$", " ${0,3,d}.rev PTR host-${-1,2,x}.example.org.", " $.gen 300 IN CNAME $.target", " h$ TXT \"n$\" \"$$\"", " g${1000} A 10.1.$.1",
-				" w$ TXT \"${0,255,d}\"", " w$ TXT \"${0,256,x}\"", " w$ TXT \"${0,1000000,d}\" \"${0,70000,o}\"", " ${0,4294967296,d} A 10.0.0.1", " w$ TXT \"${0,-1,d}\""}[r.IntN(10)]
+				" w$ TXT \"${0,255,d}\"", " w$ TXT \"${0,256,x}\"", " w$ TXT \"${0,1000000,d}\" \"${0,70000,o}\"", " ${0,4294967296,d} A 10.0.0.1", " w$ TXT \"${0,-1,d}\"",
+				" e$ TXT abc\\", " e$ TXT \\", " e$ TXT a\\$\\", " e\\$ A 10.0.0.$\\"}[r.IntN(14)]
 			out = append(out, l)
 		default:
 			if !damage {
@@ -1477,6 +1481,39 @@ func selfIncludeThroughGenerate(sc *Scenario, res *core.Result, logf func(string
 		return
 	}
 	logf("self-include through $GENERATE (%d hops): %d records, err class %s", hops, out.n, errClass(out.err))
+	// files included from the text a $GENERATE expands to, the second of them unreadable (a directory):
+	// one record from the first, then an error - not a panic, not silence
+	os.WriteFile(abs+"/part0", []byte("p0 300 IN A 192.0.2.30\n"), 0o644)
+	os.Mkdir(abs+"/part1", 0o755)
+	gi, ok := guarded(limit, func() (r result) {
+		defer func() {
+			if p := recover(); p != nil {
+				r.pan = fmt.Sprintf("%v\n%s", p, libFrames(string(debug.Stack())))
+			}
+		}()
+		zp := dns.NewZoneParser(strings.NewReader("$GENERATE 0-1 $$INCLUDE "+abs+"/part$\nafter 300 IN A 192.0.2.31\n"), "example.org.", abs+"/gen.zone")
+		zp.SetIncludeAllowed(true)
+		for _, ok := zp.Next(); ok && r.n < 1000; _, ok = zp.Next() {
+			r.n++
+		}
+		if e := zp.Err(); e != nil {
+			r.err = e.Error()
+		}
+		return r
+	})
+	if !ok {
+		hang(res, "parsing a $GENERATE whose text includes a file and a directory")
+		return
+	}
+	res.Bump("oracle.P3_unreadable_include_from_generate_reported")
+	switch {
+	case gi.pan != "":
+		res.Fail("P2", "panic:"+firstFrame(gi.pan), "the parser panicked on an include made by a $GENERATE whose target cannot be read (a directory): %s", gi.pan)
+		return
+	case gi.err == "" || gi.n > 1:
+		res.Fail("P3", "io-error-swallowed", "a $GENERATE expanded to two $INCLUDE lines, the second of a directory: %d records were returned, Err() says %q (one record, then an error, is what is there)", gi.n, gi.err)
+		return
+	}
 	res.Bump("oracle.P5_self_include_through_generate_stops")
 	switch {
 	case out.pan != "":
@@ -1758,5 +1795,7 @@ func runSmall(sc *Scenario, res *core.Result, logf func(string, ...any)) {
 }
 
 func init() {
+	// registered for good, before any run: every run of this process sees the same type tables
+	dns.PrivateHandle("XPRIV7", 65291, func() dns.PrivateRdata { return &privRdata{} })
 	core.Register(&core.Prop{ID: "C07", Gen: Gen, Decode: Decode, Run: Run, Shrink: Shrink, Modes: []string{"pristine", "instr"}})
 }
